@@ -1,3 +1,4 @@
+import TmcgProps.C03CutChoose
 import TmcgProofs.SigmaComplete
 /-
   C03 — Completeness: an honest proof is always accepted.
